@@ -53,7 +53,7 @@ def contract(target, props, name=None, status='P'):
         cls.status = status
         for attr, default in (('ghost', None), ('requires', None), ('hooks', {}), ('raises', {}),
                               ('may_raise', {}), ('call', None), ('samples', 40), ('budget', None),
-                              ('native', True)):
+                              ('native', True), ('max_paths', 1500)):
             if not hasattr(cls, attr):
                 setattr(cls, attr, default)
         REGISTRY[cls.cname] = cls
@@ -594,7 +594,8 @@ def verify_unit(cname, case_label, tier, seed):
             if C.call is not None:
                 return it.call_function(C.call, [], a) if inspect.isfunction(C.call) else C.call(**a)
             return it.call(C.target, [], a)
-        paths = explore(run, parent=pre_path) if C.target is not None else [(Path(), ('ret', None))]
+        paths = explore(run, parent=pre_path, max_paths=C.max_paths) if C.target is not None \
+            else [(Path(), ('ret', None))]
         res['paths'] = len(paths)
         for pi, (p, outcome) in enumerate(paths):
             if uses_calls:
